@@ -1,6 +1,8 @@
 package main
 
 import (
+	"sync"
+	"sync/atomic"
 	"encoding/json"
 	"fmt"
 	"math/rand"
@@ -255,6 +257,48 @@ func c17Run(e *env) {
 				res["ok"], res["why"], res["host"], res["want"] = false, fmt.Sprintf("the list asked about the host %q (spellings %q) says %v: per-rule evaluation over the spellings differs", n, c17Spellings(n), got), n, want
 			} else if got := forwarder.VerifMatchHost(inv, n); got != !want {
 				res["ok"], res["why"], res["host"], res["want"] = false, fmt.Sprintf("the inverse list asked about the host %q says %v: not the negation", n, got), n, want
+			}
+		}
+		// a rule list is asked by every request goroutine at once ("for every host"): the same answers under
+		// concurrent lookups, and again one by one afterwards
+		if res["ok"] == true && len(c.List) >= 3 {
+			type q struct {
+				h    string
+				want bool
+			}
+			var qs []q
+			for hk, want := range c.Match {
+				var j int
+				fmt.Sscanf(hk, "h%d", &j)
+				qs = append(qs, q{hosts[j], want})
+			}
+			var wg sync.WaitGroup
+			var bad atomic.Value
+			for g := 0; g < 8 && len(qs) > 0; g++ {
+				wg.Add(1)
+				go func(g int) {
+					defer wg.Done()
+					for round := 0; round < 40; round++ {
+						for k := range qs {
+							x := qs[(k+g*3)%len(qs)]
+							if m.Match(x.h) != x.want || inv.Match(x.h) == x.want {
+								bad.Store(x.h)
+								return
+							}
+						}
+					}
+				}(g)
+			}
+			wg.Wait()
+			if h, ok := bad.Load().(string); ok {
+				res["ok"], res["why"], res["host"] = false, "Match differs from per-rule evaluation under concurrent lookups", h
+			} else {
+				for _, x := range qs {
+					if m.Match(x.h) != x.want {
+						res["ok"], res["why"], res["host"] = false, "Match differs from per-rule evaluation after concurrent lookups", x.h
+						break
+					}
+				}
 			}
 		}
 		res["nt"] = nt && len(c.List) > 1
